@@ -15,6 +15,7 @@
 #include <cstdlib>
 #include <limits>
 #include <ostream>
+#include <ratio>
 
 #include "opentelemetry/nostd/string_view.h"
 #include "opentelemetry/sdk/common/global_log_handler.h"
@@ -87,9 +88,26 @@ bool GetBoolEnvironmentVariable(const char *env_var_name, bool &value)
   return true;
 }
 
+// Converts count units of Unit to the system clock duration, rejecting values
+// that cannot be represented.
+template <class Unit>
+static bool ConvertTimeout(std::chrono::system_clock::duration::rep count,
+                           std::chrono::system_clock::duration &value)
+{
+  using Duration = std::chrono::system_clock::duration;
+  using Scale    = std::ratio_divide<typename Unit::period, Duration::period>;
+  if (Scale::num > Scale::den && count > (Duration::max)().count() / (Scale::num / Scale::den))
+  {
+    return false;
+  }
+  value = std::chrono::duration_cast<Duration>(Unit{count});
+  return true;
+}
+
 static bool GetTimeoutFromString(const char *input, std::chrono::system_clock::duration &value)
 {
-  std::chrono::system_clock::duration::rep result = 0;
+  using Rep  = std::chrono::system_clock::duration::rep;
+  Rep result = 0;
 
   // Skip spaces
   for (; *input && std::isspace(*input); ++input)
@@ -97,7 +115,13 @@ static bool GetTimeoutFromString(const char *input, std::chrono::system_clock::d
 
   for (; *input && std::isdigit(*input); ++input)
   {
-    result = result * 10 + (*input - '0');
+    const Rep digit = *input - '0';
+    if (result > ((std::numeric_limits<Rep>::max)() - digit) / 10)
+    {
+      // Rejecting a duration that does not fit.
+      return false;
+    }
+    result = result * 10 + digit;
   }
 
   if (result == 0)
@@ -110,44 +134,32 @@ static bool GetTimeoutFromString(const char *input, std::chrono::system_clock::d
 
   if (unit == "ns")
   {
-    value = std::chrono::duration_cast<std::chrono::system_clock::duration>(
-        std::chrono::nanoseconds{result});
-    return true;
+    return ConvertTimeout<std::chrono::nanoseconds>(result, value);
   }
 
   if (unit == "us")
   {
-    value = std::chrono::duration_cast<std::chrono::system_clock::duration>(
-        std::chrono::microseconds{result});
-    return true;
+    return ConvertTimeout<std::chrono::microseconds>(result, value);
   }
 
   if (unit == "ms")
   {
-    value = std::chrono::duration_cast<std::chrono::system_clock::duration>(
-        std::chrono::milliseconds{result});
-    return true;
+    return ConvertTimeout<std::chrono::milliseconds>(result, value);
   }
 
   if (unit == "s")
   {
-    value = std::chrono::duration_cast<std::chrono::system_clock::duration>(
-        std::chrono::seconds{result});
-    return true;
+    return ConvertTimeout<std::chrono::seconds>(result, value);
   }
 
   if (unit == "m")
   {
-    value = std::chrono::duration_cast<std::chrono::system_clock::duration>(
-        std::chrono::minutes{result});
-    return true;
+    return ConvertTimeout<std::chrono::minutes>(result, value);
   }
 
   if (unit == "h")
   {
-    value =
-        std::chrono::duration_cast<std::chrono::system_clock::duration>(std::chrono::hours{result});
-    return true;
+    return ConvertTimeout<std::chrono::hours>(result, value);
   }
 
   if (unit == "")
@@ -155,9 +167,7 @@ static bool GetTimeoutFromString(const char *input, std::chrono::system_clock::d
     // TODO: The spec says milliseconds, but opentelemetry-cpp implemented
     // seconds by default. Fixing this is a breaking change.
 
-    value = std::chrono::duration_cast<std::chrono::system_clock::duration>(
-        std::chrono::seconds{result});
-    return true;
+    return ConvertTimeout<std::chrono::seconds>(result, value);
   }
 
   // Failed to parse the input string.
@@ -210,6 +220,7 @@ bool GetUintEnvironmentVariable(const char *env_var_name, std::uint32_t &value)
 
   const char *end  = raw_value.c_str() + raw_value.length();
   char *actual_end = nullptr;
+  errno            = 0;
   const auto temp  = std::strtoull(raw_value.c_str(), &actual_end, 10);
 
   if (errno == ERANGE)
@@ -249,6 +260,7 @@ bool GetFloatEnvironmentVariable(const char *env_var_name, float &value)
 
   const char *end  = raw_value.c_str() + raw_value.length();
   char *actual_end = nullptr;
+  errno            = 0;
   value            = std::strtof(raw_value.c_str(), &actual_end);
 
   if (errno == ERANGE)
